@@ -105,6 +105,14 @@ Arguments Ok {A} a. Arguments Err {A}.
 Section WithCrc.
 Variable crc : bytes -> Z.
 
+(* NewRecordBatchFromBytes: the three header fields; it rejects a negative
+   lastOffsetDelta (and fewer than 61 bytes, which cannot happen at its call sites) *)
+Definition b_base (b : bytes) := i64 (slice 0 8 b).
+Definition b_lod (b : bytes) := i32 (slice 23 4 b).
+Definition b_cnt (b : bytes) := i32 (slice 57 4 b).
+Definition new_batch (b : bytes) (done : bool) : res (option bytes * bool) :=
+  if b_lod b <? 0 then Err else Ok (Some b, done).
+
 (* truncateRecordBatchToTimestamp: (Some batch bytes if kept, done) *)
 Definition truncate_batch (b : bytes) (T : Z) : res (option bytes * bool) :=
   if zlen b <? 61 then Err
@@ -112,7 +120,7 @@ Definition truncate_batch (b : bytes) (T : Z) : res (option bytes * bool) :=
     let '(h, data) := split_header b in
     let first := i64 (h_first h) in
     let mx := i64 (h_max h) in
-    if mx <=? T then Ok (Some b, false)
+    if mx <=? T then new_batch b false
     else if T <? first then Ok (None, true)
     else if negb (Z.land (i16 (h_attr h)) 7 =? 0) then Err
     else
@@ -121,7 +129,7 @@ Definition truncate_batch (b : bytes) (T : Z) : res (option bytes * bool) :=
       | None => Err
       | Some kept =>
           if zlen kept =? 0 then Ok (None, true)
-          else if zlen kept =? cnt then Ok (Some b, true)
+          else if zlen kept =? cnt then new_batch b true
           else
             let data' := concat (map r_bytes kept) in
             let h1 := mkHdr (h_base h) (be_enc 4 (61 + zlen data' - 12)) (h_ple h) (h_crc h) (h_attr h)
@@ -129,7 +137,7 @@ Definition truncate_batch (b : bytes) (T : Z) : res (option bytes * bool) :=
                             (be_enc 8 (max_ts first first kept)) (h_mid h) (be_enc 4 (zlen kept)) in
             let h2 := mkHdr (h_base h1) (h_len h1) (h_ple h1) (be_enc 4 (crc (tail21 h1 data')))
                             (h_attr h1) (h_lod h1) (h_first h1) (h_max h1) (h_mid h1) (h_cnt h1) in
-            Ok (Some (render h2 data'), true)
+            new_batch (render h2 data') true
       end.
 
 (* collectRecoverableBatches over the segment body *)
@@ -176,11 +184,6 @@ Definition index_interval (ix : bytes) : res Z :=
     if count <? 0 then Err
     else if zlen ix - 16 <? count * 12 then Err
     else Ok (i32 (slice 10 4 ix)).
-
-(* NewRecordBatchFromBytes fields *)
-Definition b_base (b : bytes) := i64 (slice 0 8 b).
-Definition b_lod (b : bytes) := i32 (slice 23 4 b).
-Definition b_cnt (b : bytes) := i32 (slice 57 4 b).
 
 (* IndexBuilder over the batches: entries (offset, position) *)
 Fixpoint index_entries (interval : Z) (bs : list bytes) (pos since : Z) (first : bool) : list (Z * Z) :=
@@ -430,3 +433,64 @@ Definition restore (w : world) (T : Z) (parts : list Z) : res (list (Z * Z * Z))
   end.
 
 End WithCrc.
+
+(* ------------------------------------------------- specification-side decoding *)
+(* all records of a batch, as an independent reader would decode them: numRecords
+   records from the bytes after the 61-byte header *)
+Fixpoint parse_records (fuel : nat) (cnt : Z) (data : bytes) : option (list rec) :=
+  match fuel with
+  | O => None
+  | S f =>
+      if cnt <=? 0 then Some []
+      else match scan_record data with
+           | None => None
+           | Some (r, rest) =>
+               match parse_records f (cnt - 1) rest with
+               | None => None
+               | Some rs => Some (r :: rs)
+               end
+           end
+  end.
+
+(* (baseOffset, firstTimestamp, records) *)
+Definition batch_view (b : bytes) : option (Z * Z * list rec) :=
+  if zlen b <? 61 then None
+  else
+    let '(h, data) := split_header b in
+    match parse_records (S (length data)) (i32 (h_cnt h)) data with
+    | None => None
+    | Some rs => Some (i64 (h_base h), i64 (h_first h), rs)
+    end.
+
+(* a record as the property sees it: (offset, timestamp, its bytes) *)
+Definition rview (base first : Z) (r : rec) : Z * Z * bytes :=
+  (wrap_s 64 (base + r_od r), rec_ts first r, r_bytes r).
+
+Definition batch_records (b : bytes) : option (list (Z * Z * bytes)) :=
+  match batch_view b with
+  | Some (base, first, rs) => Some (map (rview base first) rs)
+  | None => None
+  end.
+
+Fixpoint take_while {A} (p : A -> bool) (l : list A) : list A :=
+  match l with
+  | [] => []
+  | x :: l' => if p x then x :: take_while p l' else []
+  end.
+
+(* the guard of the prefix clause: the batch decodes, is not empty, is uncompressed,
+   its header's firstTimestamp is the first record's timestamp and its maxTimestamp
+   the maximum -- what standard producers write *)
+Definition hdr_consistent (b : bytes) : Prop :=
+  61 <= zlen b /\
+  match batch_view b with
+  | Some (base, first, rs) =>
+      rs <> [] /\ zlen rs < 2 ^ 31 /\
+      rec_ts first (hd (mkRec [] 0 0) rs) = first /\
+      i64 (slice 35 8 b) = max_ts first first rs /\
+      Z.land (i16 (slice 21 2 b)) 7 = 0 /\
+      0 <= b_lod b
+  | None => False
+  end.
+
+Definition ts_ok (T : Z) (v : Z * Z * bytes) : bool := snd (fst v) <=? T.
